@@ -1,4 +1,5 @@
 import AasVerif.Model.Yielding
+import AasVerif.Model.YieldingCheck
 namespace AasVerif.Drive.C26
 open AasVerif AasVerif.Yielding
 
@@ -8,6 +9,7 @@ open AasVerif AasVerif.Yielding
 * `runsub <flow> <oracle>` → state machine over `toSubroutines flow`
 * `runflat <stage 0..3> <flow> <oracle>` → goto machine over an intermediate stage
 * `wf <flow>` → `1`/`0` (`@require` of the If constructors)
+* `check <flow>` → `1`/`0`: the decidable hypothesis `pipelineCheck` of the `_partial` theorems
 -/
 def handle : List String → Option String
   | ["stages", f] => do
@@ -37,6 +39,9 @@ def handle : List String → Option String
       | "3" => some (fixLabels (compress l))
       | _ => none
     some (Wire.result (runFlat code orc))
+  | ["check", f] => do
+    let flow ← Wire.flow f
+    some (if pipelineCheck flow then "1" else "0")
   | ["wf", f] => do
     let flow ← Wire.flow f
     some (if wfSeq flow then "1" else "0")
